@@ -155,7 +155,9 @@ JudgeRun(e, ch, tainted) ==
           THEN Verdict("mismatch", "run", "C02", <<"outcome">>,
                        "the time limit had passed before the last of " \o ToString(sleeps) \o " sleeps but run() went on")
           ELSE IF m.out = "undetermined" THEN Blank("ok", "run:undetermined")
-          ELSE IF okWith(m, TRUE) \/ (cfg.push_limit > MinInt /\ okWith(m2, FALSE)) THEN Blank("ok", "run")
+          \* ... and a run whose budget is used up exactly when EXEC has become empty may report either outcome
+          ELSE IF okWith(m, TRUE) \/ (cfg.push_limit > MinInt /\ okWith(m2, FALSE))
+                  \/ (m.out = "StepLimitExceeded" /\ m.fin.exec = <<>> /\ e.ret = "NoErrors" /\ e.post = m.fin) THEN Blank("ok", "run")
           ELSE Verdict("mismatch", "run", "C02",
                        (IF e.ret # m.out THEN <<"outcome">> ELSE <<>>) \o SetAsSeq({f \in AllFields : e.post[f] # m.fin[f]}),
                        "run() returned " \o e.ret \o ", the loop machine fed with the recorded steps gives " \o m.out
@@ -171,7 +173,7 @@ JudgeParse(e, pre) ==
   ELSE LET others == {f \in AllFields \ {"exec"} : e.post[f] # pre[f]}
            r == Parse(e.act.text, pre.exec, KnownInstr, WS)
        IN IF others # {} THEN Verdict("mismatch", "parse", "C03", SetAsSeq(others), "the parser changed a stack other than EXEC")
-          ELSE IF r.balanced /\ ~SeqMatch(r.exec, e.post.exec)
+          ELSE IF r.balanced /\ ~Ambiguous(e.act.text, KnownInstr, WS) /\ ~SeqMatch(r.exec, e.post.exec)
           THEN Verdict("mismatch", "parse", "C03", <<"exec">>, "EXEC differs from the token tree")
           ELSE Blank("ok", "parse")
 
